@@ -90,7 +90,8 @@ def bias_cfg(kind, name, vnames, o, vkinds):
     if kind == "opes":
         return "opes_metad {\n  name %s\n  colvars %s\n  newHillFrequency 2\n  barrier 5\n  gaussianSigma 0.4\n}" % (name, v)
     if kind == "alb":
-        return "alb {\n  name %s\n  colvars %s\n  centers %s\n  updateFrequency 6\n}" % (name, v, fmt(o["c"] + 0.7))
+        c = o["c"] + 0.7    # a zero centre is rejected by the library (ALB divides by it)
+        return "alb {\n  name %s\n  colvars %s\n  centers %s\n  updateFrequency 6\n}" % (name, v, fmt(c if c != 0.0 else 0.35))
     raise KeyError(kind)
 
 
@@ -353,8 +354,8 @@ def view(spec):
 
 BUILD_TARGETS = ["rel", "asan"]
 PARTS = {
-    "sequences": {"strategy": spec_seq, "check": check_seq, "examples": {"quick": 3000, "thorough": 40000}, "sample": view},
+    "sequences": {"strategy": spec_seq, "check": check_seq, "examples": {"quick": 6000, "thorough": 40000}, "sample": view},
     # the same sequences under AddressSanitizer/UBSan: a reference to a deleted object is a use-after-free report
     "sequences_asan": {"strategy": spec_seq, "check": lambda s, c: check_seq(s, c, variant="asan"),
-                       "examples": {"quick": 400, "thorough": 6000}, "sample": view},
+                       "examples": {"quick": 800, "thorough": 6000}, "sample": view},
 }
